@@ -130,6 +130,13 @@ impl<T> NetworkMessage<T> {
             NetworkData::Batch(v) => v.len(),
         }
     }
+
+    /// Whether the batch contains anything other than `Terminate` markers.
+    pub fn has_non_terminate(&self) -> bool {
+        match &self.data {
+            NetworkData::Batch(v) => v.iter().any(|e| !matches!(e, StreamElement::Terminate)),
+        }
+    }
 }
 
 impl<T> IntoIterator for NetworkMessage<T> {
